@@ -850,6 +850,179 @@ func TestCipherWriterDestinationKinds(t *testing.T) {
 	})
 }
 
+// segSrc serves its segments one after the other and reports io.EOF once at
+// the end of each (a stream that pauses: more data follows a reported EOF).
+// It has no WriteTo, so io.Copy cannot bypass the reader wrapped around it.
+type segSrc struct {
+	segs  [][]byte
+	sizes []int
+	i     int
+}
+
+func (s *segSrc) Read(p []byte) (int, error) {
+	for len(s.segs) > 0 && len(s.segs[0]) == 0 {
+		s.segs = s.segs[1:]
+		return 0, io.EOF
+	}
+	if len(s.segs) == 0 {
+		return 0, io.EOF
+	}
+	if len(p) == 0 {
+		return 0, nil
+	}
+	n := min(len(p), len(s.segs[0]))
+	if len(s.sizes) > 0 {
+		if c := s.sizes[s.i%len(s.sizes)]; c > 0 && c < n {
+			n = c
+		}
+		s.i++
+	}
+	copy(p, s.segs[0][:n])
+	s.segs[0] = s.segs[0][n:]
+	return n, nil
+}
+
+// Write calls interleaved with io.Copy(cw, src) for sources with and without
+// WriteTo, and with ReadFrom called directly when the writer offers it: the
+// destination stream is the reference of everything fed, at a running offset.
+func TestCipherWriterCopyInterleaved(t *testing.T) {
+	hx.Check(t, 6, func(t *rapid.T) {
+		n := drawLen(t, "len")
+		if n > 12000 {
+			n = n % 12000
+		}
+		key := gen.Key(t, "key")
+		content := pattern(n, drawSeed(t))
+		caller := append([]byte(nil), content...)
+		pieces := gen.Split(t, "split", caller, 6)
+		ops := make([]string, len(pieces))
+		for i := range ops {
+			ops[i] = rapid.SampledFrom([]string{"Write", "Copy(tx.Src)", "Copy(tx.Src)", "Copy(LimitedReader)", "Copy(bytes.Reader)", "ReadFrom"}).Draw(t, "op")
+		}
+		chunks := gen.Chunks(t, "chunks")
+		hx.Eval()
+
+		rec := tx.NewRec()
+		cw := wsutil.NewCipherWriter(rec, key)
+		_, hasReadFrom := interface{}(cw).(io.ReaderFrom)
+		fed, oddBefore := 0, false
+		for i, p := range pieces {
+			if fed%4 != 0 && len(p) > 0 {
+				oddBefore = true
+			}
+			var k int64
+			var err error
+			switch ops[i] {
+			case "Write":
+				var kk int
+				kk, err = cw.Write(p)
+				k = int64(kk)
+			case "Copy(tx.Src)":
+				k, err = io.Copy(cw, tx.NewSrc(p, chunks))
+			case "Copy(LimitedReader)":
+				k, err = io.Copy(cw, io.LimitReader(bytes.NewReader(append(append([]byte(nil), p...), 0xAA, 0xBB)), int64(len(p))))
+			case "Copy(bytes.Reader)":
+				k, err = io.Copy(cw, bytes.NewReader(append([]byte(nil), p...)))
+			case "ReadFrom":
+				if rf, ok := interface{}(cw).(io.ReaderFrom); ok {
+					k, err = rf.ReadFrom(tx.NewSrc(p, chunks))
+				} else {
+					k, err = io.Copy(cw, tx.NewSrc(p, chunks))
+				}
+			}
+			if err != nil || k != int64(len(p)) {
+				t.Fatalf("%s of %d bytes = (%d, %v)", ops[i], len(p), k, err)
+			}
+			fed += len(p)
+			if want := ref.Mask(content[:fed], key, 0); !bytes.Equal(rec.Bytes(), want) {
+				t.Fatalf("%s\nkey=%x pieces=%v ops=%v (after op %d)", diffMsg("destination stream differs from the reference of everything fed so far", rec.Bytes(), want), key, pieceLens(pieces), ops, i)
+			}
+		}
+		if !bytes.Equal(caller, content) {
+			t.Fatalf("CipherWriter modified the caller's bytes")
+		}
+		hx.Class(fmt.Sprintf("writer-copy/implementsReaderFrom=%v/opAfterOddByteCount=%v", hasReadFrom, oddBefore))
+		if n >= 8 && oddBefore {
+			hx.NonTrivial(hx.Hash("writer-copy", n, fmt.Sprint(pieceLens(pieces)), fmt.Sprint(ops)), func() interface{} {
+				return map[string]interface{}{"api": "CipherWriter Write/io.Copy interleaved", "len": n, "key": fmt.Sprintf("%x", key), "pieces": pieceLens(pieces), "ops": ops}
+			})
+		}
+	})
+}
+
+// Read calls interleaved with io.Copy(dst, cr) (and WriteTo called directly
+// when the reader offers it) over a source that pauses with io.EOF between
+// segments: everything delivered, in order, is the reference of the source
+// bytes at a running offset.
+func TestCipherReaderCopyInterleaved(t *testing.T) {
+	hx.Check(t, 6, func(t *rapid.T) {
+		n := drawLen(t, "len")
+		if n > 12000 {
+			n = n % 12000
+		}
+		key := gen.Key(t, "key")
+		data := pattern(n, drawSeed(t))
+		segs := gen.Split(t, "segments", append([]byte(nil), data...), 5)
+		chunks := gen.Chunks(t, "chunks")
+		hx.Eval()
+
+		src := &segSrc{segs: append([][]byte(nil), segs...), sizes: chunks}
+		cr := wsutil.NewCipherReader(src, key)
+		_, hasWriteTo := interface{}(cr).(io.WriterTo)
+		var got []byte
+		copies, oddBefore := 0, false
+		// per segment: a few Read calls, then a copy to the segment's end
+		for si := range segs {
+			reads := rapid.IntRange(0, 3).Draw(t, "readsBeforeCopy")
+			eof := false
+			for r := 0; r < reads && !eof; r++ {
+				buf := make([]byte, rapid.IntRange(1, 9).Draw(t, "bufSize"))
+				k, err := cr.Read(buf)
+				got = append(got, buf[:k]...)
+				if err == io.EOF {
+					eof = true
+				} else if err != nil {
+					t.Fatalf("Read: %v", err)
+				}
+			}
+			if eof {
+				continue // the segment ended during the Read calls
+			}
+			if len(got)%4 != 0 {
+				oddBefore = true
+			}
+			rec := tx.NewRec()
+			var err error
+			if wt, ok := interface{}(cr).(io.WriterTo); ok && rapid.Bool().Draw(t, "directWriteTo") {
+				_, err = wt.WriteTo(rec)
+			} else {
+				_, err = io.Copy(rec, cr)
+			}
+			if err != nil {
+				t.Fatalf("io.Copy(dst, CipherReader) in segment %d: %v", si, err)
+			}
+			copies++
+			got = append(got, rec.Bytes()...)
+			consumed := 0
+			for _, s := range segs[:si+1] {
+				consumed += len(s)
+			}
+			if want := ref.Mask(data[:consumed], key, 0); !bytes.Equal(got, want) {
+				t.Fatalf("%s\nkey=%x segments=%v chunks=%v (after the copy in segment %d)", diffMsg("bytes delivered by Read and io.Copy differ from the reference", got, want), key, pieceLens(segs), chunks, si)
+			}
+		}
+		if want := ref.Mask(data, key, 0); !bytes.Equal(got, want) {
+			t.Fatalf("%s\nkey=%x segments=%v chunks=%v", diffMsg("bytes delivered by Read and io.Copy differ from the reference", got, want), key, pieceLens(segs), chunks)
+		}
+		hx.Class(fmt.Sprintf("reader-copy/implementsWriterTo=%v/copies=%d/copyAfterOddByteCount=%v", hasWriteTo, min(copies, 3), oddBefore))
+		if n >= 8 && oddBefore {
+			hx.NonTrivial(hx.Hash("reader-copy", n, fmt.Sprint(pieceLens(segs)), fmt.Sprint(chunks), copies), func() interface{} {
+				return map[string]interface{}{"api": "CipherReader Read/io.Copy interleaved", "len": n, "key": fmt.Sprintf("%x", key), "segments": pieceLens(segs), "copies": copies}
+			})
+		}
+	})
+}
+
 // flaky is a destination that accepts only Accept[i] mod (len(p)+1) bytes of
 // call i and reports an error for that call — once; every other call is
 // accepted whole.
